@@ -163,6 +163,15 @@ def gen_world_for(rnd, profile):
             lo = hi = rnd.randint(-2, 2)
         lo, hi = max(lo, -(w["cols"] - 1)), min(hi, w["cols"] - 1)
         w["disp"]["min"], w["disp"]["max"] = lo, hi
+    # row / col coordinates that do not start at 0, as in a dataset read through a ROI (decided from the world itself,
+    # so that the random stream - and with it every scenario generated before this dimension existed - is unchanged)
+    import hashlib
+    import json
+    import os
+
+    h = hashlib.sha256(json.dumps(w, sort_keys=True, default=str).encode()).digest()
+    if h[0] < 256 * float(os.environ.get("VERIF_COORD_OFF_P", profile.get("coord_off_p", 0.15))):
+        w["coord_off"] = [(0, 3, 17, 100)[h[1] % 4], (1, 2, 5, 40)[h[2] % 4]]
     return w
 
 
